@@ -47,7 +47,7 @@ ASSUMPTIONS = [
 
 
 def run_lean_unit(lines):
-    return core.run_lean(lines, main="Driver/Main_Analysis.lean")
+    return core.run_lean(lines)
 
 
 # ----------------------------------------------------------------------------- exact oracle
@@ -268,8 +268,73 @@ def show(d):
     return "none" if d is None else str(int(d))
 
 
-def observe(make, T, shallow):
-    """all observations on a *fresh* object made by `make()`; returns the model-format line"""
+def subnodes(e):
+    """the sub-expression objects of `e` (root excluded) in pre-order of the *tree* walk (a shared object
+    appears once per occurrence, so positions agree between the original DAG and a rebuilt tree)"""
+    from optyx.core.expressions import BinaryOp, UnaryOp
+
+    out = []
+    stack = [(e, True)]
+    while stack:
+        n, is_root = stack.pop()
+        if not is_root:
+            out.append(n)
+        if isinstance(n, BinaryOp):
+            stack.append((n.right, False)); stack.append((n.left, False))
+        elif isinstance(n, UnaryOp):
+            stack.append((n.operand, False))
+        else:
+            kids = []
+            for attr in ("vector", "left", "right", "expression"):
+                sub = getattr(n, attr, None)
+                if sub is not None and hasattr(sub, "_expressions"):
+                    kids += list(sub._expressions)
+            m = getattr(n, "matrix", None)
+            if m is not None and hasattr(m, "_expressions"):
+                kids += [x for row in m._expressions for x in row]
+            for k in reversed(kids):
+                stack.append((k, False))
+    return out
+
+
+def prequery(e, idxs, pre_T):
+    """history: read `.degree` / `is_linear()` on the chosen sub-expression objects, deepest first, so that
+    their `_degree` slots hold a degree or the -1 sentinel *before* the root is classified"""
+    import optyx.analysis as A
+
+    nodes = subnodes(e)
+    old = A._RECURSION_THRESHOLD
+    try:
+        A._RECURSION_THRESHOLD = pre_T
+        for i in sorted(set(idxs), reverse=True):
+            if i < len(nodes):
+                with warnings.catch_warnings():
+                    warnings.simplefilter("ignore")
+                    try:
+                        if i % 2:
+                            nodes[i].is_linear()
+                        else:
+                            nodes[i].degree
+                    except Exception:  # noqa: BLE001  (a raising sub-node is reported when it is a root itself)
+                        pass
+    finally:
+        A._RECURSION_THRESHOLD = old
+
+
+def choose_pre(e, rng, p):
+    n = len(subnodes(e))
+    if n > 120:
+        # deep chains: a bounded sample (each read is itself a traversal), always with the deepest objects
+        k = 24
+        return sorted(set(rng.sample(range(n), k)) | set(range(n - 6, n)))
+    if p >= 1.0:
+        return list(range(n))
+    return [i for i in range(n) if rng.random() < p]
+
+
+def observe(make, T, shallow, pre=None):
+    """all observations on a *fresh* object made by `make()`; `pre` = (rng, probability, pre_T) populates
+    the `_degree` slots of a random subset of the sub-expression objects first"""
     import optyx.analysis as A
 
     def grab(fn):
@@ -283,6 +348,11 @@ def observe(make, T, shallow):
             return f"raise:{type(ex).__name__}"
 
     e = make()
+    pre_idx, pre_T = [], None
+    if pre is not None:
+        prng, p, pre_T = pre
+        pre_idx = choose_pre(e, prng, p)
+        prequery(e, pre_idx, pre_T)
     old = A._RECURSION_THRESHOLD
     try:
         it = grab(lambda: A._compute_degree_iterative(e))
@@ -303,7 +373,7 @@ def observe(make, T, shallow):
     finally:
         A._RECURSION_THRESHOLD = old
     return {"e": e, "iter": it, "compute": comp, "depth": depth, "rec": rec, "reads": [r1, r2], "slot": slot,
-            "lin": lin, "quad": quad, "lin_method": lin2}
+            "lin": lin, "quad": quad, "lin_method": lin2, "pre": pre_idx, "pre_T": pre_T}
 
 
 def obs_line(o):
@@ -460,6 +530,18 @@ def chain_cases(rng, thorough):
         out.append((f"chainR*:{d}", (lambda d=d: right_chain(d, lambda: x, mul_step))))
         out.append((f"chainNeg:{d}", (lambda d=d: left_chain(d, lambda: x * 2.0, neg_step))))
         out.append((f"chainMix:{d}", (lambda d=d: left_chain(d, lambda: x, mixed_step))))
+        # chains grown from a term whose degree was read *before* it was reused (slot = d or the -1 sentinel)
+        for (la, leaf) in leaves + [("sin3", lambda: sin(x) * 3.0), ("abs", lambda: UnaryOp(x, "abs")), ("x/y", lambda: x / y)]:
+            def pre_chain(d=d, leaf=leaf, right=False):
+                t = leaf()
+                with warnings.catch_warnings():
+                    warnings.simplefilter("ignore")
+                    t.degree
+                    t.is_linear()
+                return (right_chain if right else left_chain)(d, lambda: t, add_step)
+            out.append((f"chainPreL+:{d}:{la}", pre_chain))
+            out.append((f"chainPreR+:{d}:{la}", (lambda f=pre_chain: f(right=True))))
+            out.append((f"chainPreMix:{d}:{la}", (lambda d=d, leaf=leaf: (lambda t: (t.degree, left_chain(d, lambda: t, mixed_step))[1])(leaf()))))
         # the non-polynomial part sits at the far end of the right operand of the root
         out.append((f"chainLate:{d}", (lambda d=d: BinaryOp(left_chain(d, lambda: x, add_step), sin(y), "+"))))
     return out
@@ -535,7 +617,12 @@ def check_cases(cases, rep, rng, thorough, T_choices=(400, 0, 3)):
     for tag, make in cases:
         T = T_choices[len(metas) % len(T_choices)] if not tag.startswith("chain") else rng.choice([400, 400, 0])
         shallow = not tag.startswith("chain")
-        o = observe(make, T, shallow)
+        # history dimension: for about half of the cases some / all sub-expression objects have been asked
+        # for their degree before (their slots hold d or the -1 sentinel), under a threshold of their own
+        pre = None
+        if rng.random() < 0.5:
+            pre = (rng, rng.choice([0.25, 0.6, 1.0]), rng.choice([0, 400, 3]))
+        o = observe(make, T, shallow, pre)
         e = o["e"]
         o["tag"], o["T"] = tag, T
         try:
@@ -559,27 +646,30 @@ def check_cases(cases, rep, rng, thorough, T_choices=(400, 0, 3)):
         key = tag.split(":")[0]
         rep.histogram[key] = rep.histogram.get(key, 0) + 1
         rep.evaluations += 1
+        if o["pre"]:
+            rep.histogram["history:sub-node slots populated first"] = rep.histogram.get("history:sub-node slots populated first", 0) + 1
+        hist = {"pre": o["pre"], "pre_T": o["pre_T"]} if o["pre"] else {}
         impl_line = obs_line(o)
         # internal consistency of the real code: whichever traversal, first and later reads
         seen = [o["iter"], o["compute"], o["reads"][0], o["reads"][1]] + ([o["rec"]] if o["rec"] is not None else [])
         raised = [x for x in seen if isinstance(x, str)]
         d = o["compute"]
         if raised:
-            rep.oracle_failures.append({"what": f"degree computation raised {raised[0]}", "expr": o["sexp"], "tag": tag, "T": o["T"]})
+            rep.oracle_failures.append({"what": f"degree computation raised {raised[0]}", "expr": o["sexp"], "tag": tag, "T": o["T"], **hist})
             continue
         if any(x != d for x in seen):
             rep.oracle_failures.append({"what": "the traversals / repeated reads of the real code disagree with each other",
-                                        "observed": impl_line, "expr": o["sexp"], "tag": tag, "T": o["T"]})
+                                        "observed": impl_line, "expr": o["sexp"], "tag": tag, "T": o["T"], **hist})
         want_slot = -1 if d is None else d
         if o["slot"] != want_slot:
             rep.corr_mismatches.append({"what": "_degree slot after the first read", "slot": repr(o["slot"]), "expr": o["sexp"], "tag": tag})
         if o["lin"] != (d is not None and d <= 1) or o["quad"] != (d is not None and d <= 2) or o["lin_method"] != o["lin"]:
             rep.oracle_failures.append({"what": "is_linear / is_quadratic inconsistent with the reported degree",
-                                        "observed": impl_line, "expr": o["sexp"], "tag": tag})
+                                        "observed": impl_line, "expr": o["sexp"], "tag": tag, "T": o["T"], **hist})
         if o["unsupported"] is None:
             model = next(outs)
             if model != impl_line:
-                rep.corr_mismatches.append({"tag": tag, "T": o["T"], "expr": (o["sexp"] or "")[:600], "impl": impl_line, "model": model})
+                rep.corr_mismatches.append({"tag": tag, "T": o["T"], "expr": (o["sexp"] or "")[:600], "impl": impl_line, "model": model, **hist})
         # the property oracle on the real code
         if d is not None:
             rep.nontrivial.add(hash(o["sexp"] or tag))
@@ -591,7 +681,7 @@ def check_cases(cases, rep, rng, thorough, T_choices=(400, 0, 3)):
             if isinstance(r, str):
                 rep.skipped["oracle:" + r[5:]] = rep.skipped.get("oracle:" + r[5:], 0) + 1
             elif r is not None:
-                r.update({"expr": o["sexp"], "tag": tag, "degree": d})
+                r.update({"expr": o["sexp"], "tag": tag, "degree": d, "T": o["T"], **hist})
                 rep.oracle_failures.append(r)
             elif len(rep.samples) < 8 and o["sexp"] and 30 < len(o["sexp"]) < 160 and d >= 1:
                 rep.samples.append({"expr": o["sexp"], "degree": d, "T": o["T"], "model": impl_line})
@@ -632,17 +722,25 @@ def search(ctx, rep):
         depth = rng.randint(1, 6)
         pool.append(("randpoly", (lambda U=U, depth=depth, st=rng.getrandbits(48): rand_poly(core.Rng(st), U, depth))))
     for tag, make in pool:
-        for T in (0, 10 ** 9) if not tag.startswith("chain") else (0,):
+        # (threshold, history): history = every sub-expression object (a bounded sample on deep chains) was
+        # asked for its degree first
+        combos = ((0, False), (0, True), (10 ** 9, False)) if not tag.startswith("chain") else ((0, False), (0, True))
+        for T, with_history in combos:
             old = A._RECURSION_THRESHOLD
+            pre_idx = []
             try:
-                A._RECURSION_THRESHOLD = T
                 e = make()
+                if with_history:
+                    pre_idx = choose_pre(e, rng, 1.0)
+                    prequery(e, pre_idx, 400)
+                A._RECURSION_THRESHOLD = T
                 with warnings.catch_warnings():
                     warnings.simplefilter("ignore")
                     d = e.degree
             except Exception as ex:  # noqa: BLE001
                 try:
-                    return {"what": f"degree raised {type(ex).__name__}", "expr": ser(e), "tag": tag, "T": T}
+                    return {"what": f"degree raised {type(ex).__name__}", "expr": ser(e), "tag": tag, "T": T,
+                            "pre": pre_idx, "pre_T": 400}
                 except Exception:  # noqa: BLE001
                     continue
             finally:
@@ -652,7 +750,7 @@ def search(ctx, rep):
             r = degree_oracle(e, d, rng)
             if r is not None and not isinstance(r, str):
                 try:
-                    r.update({"expr": ser(e), "tag": tag, "degree": d, "T": T})
+                    r.update({"expr": ser(e), "tag": tag, "degree": d, "T": T, "pre": pre_idx, "pre_T": 400})
                 except Unsupported:
                     r.update({"expr": None, "tag": tag, "degree": d, "T": T})
                 return r
@@ -667,30 +765,42 @@ def replay(payload) -> bool:
         print("no serialised expression in the replay file; tag:", f.get("tag"))
         return True
     ok = True
-    for T in sorted({int(f.get("T", 400)), 0, 400, 10 ** 9}):
-        e = deser(f["expr"])
-        old = A._RECURSION_THRESHOLD
-        try:
-            A._RECURSION_THRESHOLD = T
+    # histories: none, the recorded one, and "every sub-expression object was queried first" (covers the
+    # cases whose generator reads a term's degree before reusing it)
+    histories = [("no history", None)]
+    if f.get("pre"):
+        histories.append(("recorded history", (list(f["pre"]), int(f.get("pre_T") or 400))))
+    histories.append(("all sub-nodes queried first", ("all", 400)))
+    for hname, h in histories:
+        for T in sorted({int(f.get("T", 400)), 0, 400, 10 ** 9}):
+            e = deser(f["expr"])
+            if h is not None:
+                idxs = list(range(len(subnodes(e)))) if h[0] == "all" else h[0]
+                prequery(e, idxs, h[1])
+            old = A._RECURSION_THRESHOLD
             try:
-                d = e.degree
-                d2 = e.degree
-                it = A._compute_degree_iterative(e)
-            except RecursionError:
-                print(f"T={T}: RecursionError (forced recursion on a deep tree: not a property failure)")
-                continue
-            except Exception as ex:  # noqa: BLE001
-                print(f"T={T}: raised {type(ex).__name__}: {ex}")
+                A._RECURSION_THRESHOLD = T
+                try:
+                    with warnings.catch_warnings():
+                        warnings.simplefilter("ignore")
+                        d = e.degree
+                        d2 = e.degree
+                        it = A._compute_degree_iterative(e)
+                except RecursionError:
+                    print(f"[{hname}] T={T}: RecursionError (forced recursion on a deep tree: not a property failure)")
+                    continue
+                except Exception as ex:  # noqa: BLE001
+                    print(f"[{hname}] T={T}: raised {type(ex).__name__}: {ex}")
+                    ok = False
+                    continue
+            finally:
+                A._RECURSION_THRESHOLD = old
+            print(f"[{hname}] T={T}: degree={d} second read={d2} iterative={it}")
+            if d != d2 or d != it:
                 ok = False
-                continue
-        finally:
-            A._RECURSION_THRESHOLD = old
-        print(f"T={T}: degree={d} second read={d2} iterative={it}")
-        if d != d2 or d != it:
-            ok = False
-        if d is not None:
-            r = degree_oracle(e, d, core.Rng(1), lines=6)
-            print("  oracle:", r)
-            if r is not None and not isinstance(r, str):
-                ok = False
+            if d is not None:
+                r = degree_oracle(e, d, core.Rng(1), lines=6)
+                print("  oracle:", r)
+                if r is not None and not isinstance(r, str):
+                    ok = False
     return ok
